@@ -1332,3 +1332,44 @@ def element_system_thickness_rule(ctx, rid, class_names, min_instances=5):
                     r.fail(f.qualname, f"{pt}:flags={truth}", f.file, f.lineno, f"{ci.name}.Construct_local_matrix_system", f"2-D, problem {pt}, model flags {'set' if truth else 'cleared'}: {bad}: the element system is not the one of a plate of that thickness")
                 else:
                     r.ok(f"{key}: degree 1")
+
+
+def parameter_threading_rule(ctx, rid, scope, pname="dt", min_instances=3):
+    """A function that is given a value for `pname` (the time step of the increment being integrated) hands that value to
+    every callee that takes a parameter of the same name: an omitted argument lets the callee fall back on its default
+    (no time elapses) inside a computation made for a finite step -- two halves of one update then disagree on the
+    increment.  Call sites are resolved through the call graph; a site that passes an expression built from the
+    caller's own value complies, a site that omits it does not (an explicit literal is the business of the zero rule)."""
+    from .flow import CallGraph
+
+    repo = ctx.repo
+    cg = CallGraph(repo)
+    r = ctx.rule(rid, f"`{pname}` threading: a function given `{pname}` passes it on to every callee that takes `{pname}` (no callee silently falls back on its default)", min_instances=min_instances)
+    for f in sorted(repo.all_functions(), key=lambda f: f.qualname):
+        if not scope(f) or pname not in f.params():
+            continue
+        for n in ast.walk(f.node):
+            if not isinstance(n, ast.Call):
+                continue
+            for g in cg.resolve_call(f, n):
+                ps = g.params()
+                if pname not in ps or g is f:
+                    continue
+                off = 1 if (g.cls is not None and not g.is_static() and ps and ps[0] in ("self", "cls") and not (isinstance(n.func, ast.Attribute) and isinstance(n.func.value, ast.Name) and g.cls is not None and n.func.value.id == g.cls.name)) else 0
+                idx = ps.index(pname) - off
+                passed = None
+                if 0 <= idx < len(n.args) and not any(isinstance(a, ast.Starred) for a in n.args[: idx + 1]):
+                    passed = n.args[idx]
+                for k in n.keywords:
+                    if k.arg == pname:
+                        passed = k.value
+                    if k.arg is None:
+                        passed = passed or k.value  # **kwargs: may carry it
+                if any(isinstance(a, ast.Starred) for a in n.args):
+                    passed = passed or n.args[0]
+                r.instance(fn=f.qualname)
+                if passed is None:
+                    r.fail(f.qualname, f"omitted:{g.name}", f.file, n.lineno, f"{(f.cls.name + '.') if f.cls else ''}{f.name}", f"`{norm_text(n)[:70]}` omits `{pname}` although {f.name} was given one: {g.name} runs with its default while the rest of {f.name} uses the step it was given")
+                else:
+                    r.ok(f"{f.qualname} -> {g.name}: {pname} passed")
+                break
